@@ -13,10 +13,10 @@ ENTRY = dict(
     technique="Lean 4 proof (induction over arrivals) + exhaustive differential against the real gateway",
     lean_modules=["Bpmn.Props.C03Current", "Bpmn.Props.EngineSteps", "Bpmn.Props.C03", "Bpmn.Props.EngineCurrent"],
     harness_files=["c01patient.go"],
-    families=["c03fn", "c03", "c03burst", "c03two", "c01patient", "c03bnd"],
+    families=["c03fn", "c03", "c03burst", "c03two", "c01patient", "c03bnd", "c03ctx"],
     exhaustive=True,
     facts_from=["Engine"],
-    rule=("c03bnd: a parallel block inside an embedded sub-process that carries an (interrupting / non-interrupting) boundary event, the event's signal delivered after 0..n of the n upstream tasks have been answered — the join releases exactly once when every upstream task has been answered, whatever the boundary event does; c01patient: a token waiting at a parallel join for 6.2 s of real time before its sibling arrives; c03two: two or three parallel joins collecting at the same time (a parallel block nested in a branch of another; two sibling blocks), every order of answering the 3 / 4 branch tasks; c03fn: distributeFlows for all (waiting, outgoing) in 0..12 x 0..12 (thorough 0..40) compared with the model and "
+    rule=("c03ctx: the tokens meeting at a parallel join were started under DIFFERENT live contexts (one instance, 2..3 start events each started by its own StartWith with a WithCancel / WithValue child context), 1..2 outgoing flows: the join waits for all of them and releases one token per outgoing flow; c03bnd: a parallel block inside an embedded sub-process that carries an (interrupting / non-interrupting) boundary event, the event's signal delivered after 0..n of the n upstream tasks have been answered — the join releases exactly once when every upstream task has been answered, whatever the boundary event does; c01patient: a token waiting at a parallel join for 6.2 s of real time before its sibling arrives; c03two: two or three parallel joins collecting at the same time (a parallel block nested in a branch of another; two sibling blocks), every order of answering the 3 / 4 branch tasks; c03fn: distributeFlows for all (waiting, outgoing) in 0..12 x 0..12 (thorough 0..40) compared with the model and "
           "checked for partition/completions; c03: process start -> loop(fork 1->N, N tasks, join N->M, M tasks, sync) run on "
           "the real engine for all N, M in 1..4, arrival permutations (quick: all for N<=3, one third for N=4; thorough: "
           "all), 1..3 activations; after every answer the requests/completions observed at quiescence must equal the "
